@@ -207,6 +207,9 @@ class Event:
 
 def _split_ite(e: "Event") -> List["Event"]:
     t = e.term
+    if t[0] == "or" and len(t[1]) == 2:
+        # `return a or b` is `if a: return a` / `return b`
+        t = ("ite", t[1][0], t[1][0], t[1][1])
     if t[0] != "ite" or (t[1][0] == "completed"):
         return [e]
     out = []
@@ -1195,6 +1198,22 @@ class Evaluator:
                 return subst(rets[0].term, {("param", p): a for p, a in zip(ls.params, arg_terms)})
         return ("call", fn, tuple(arg_terms), ())
 
+    def _apply_in_loop(self, fn, el, lid, live, n):
+        """fn(el) evaluated once per element of loop `lid`: the call is an event of that loop (as in a comprehension)"""
+        v = self._apply_fn(fn, [el])
+        if v[0] == "call" and v[1] == fn:
+            self.loop_stack.append(lid)
+            try:
+                t = ("call", fn, (el,), ())
+                inl = self._try_inline(fn, t, AND(live, ("inloop", lid)), n)
+                if inl is not None:
+                    return inl
+                ev = self.emit("call", AND(live, ("inloop", lid)), t, n)
+                ev.kw_order = []  # type: ignore[attr-defined]
+            finally:
+                self.loop_stack.pop()
+        return v
+
     def _norm_call(self, f, args, named, spreads, live, n):
         plain = not named and not spreads and not any(a[0] == "star" for a in args)
         # list(<generator expression>) is the list comprehension (same for set / dict of pairs)
@@ -1213,12 +1232,14 @@ class Evaluator:
         if f == ("builtin", "map") and "map" not in self.env and plain and len(args) == 2:
             lid = self.fresh("L")
             self.loops[lid] = LoopInfo(lid, "comp", args[1], n, self.loop_stack[-1] if self.loop_stack else None, "_")
-            return ("comp", "gen", self._apply_fn(args[0], [("elem", lid)]), ((lid, args[1], ()),))
+            elt = self._apply_in_loop(args[0], ("elem", lid), lid, live, n)
+            return ("comp", "gen", elt, ((lid, args[1], ()),))
         if f == ("builtin", "filter") and "filter" not in self.env and plain and len(args) == 2:
             lid = self.fresh("L")
             el = ("elem", lid)
-            cond = el if args[0] == NONE else self._apply_fn(args[0], [el])
-            self.loops[lid] = LoopInfo(lid, "comp", args[1], n, self.loop_stack[-1] if self.loop_stack else None, "_", (cond,))
+            self.loops[lid] = LoopInfo(lid, "comp", args[1], n, self.loop_stack[-1] if self.loop_stack else None, "_")
+            cond = el if args[0] == NONE else self._apply_in_loop(args[0], el, lid, live, n)
+            self.loops[lid].conds = (cond,)
             return ("comp", "gen", el, ((lid, args[1], (cond,)),))
         # functools.partial(g, a, k=v)(b) is g(a, b, k=v)
         if f[0] == "call" and f[1] == ("ext", "functools.partial") and f[2] and not any(k == "**" for k, _ in f[3]):
@@ -1561,14 +1582,24 @@ class Evaluator:
         pushed = 0
         for g in n.generators:
             it = self.ev(g.iter, inner)
-            lid = self.fresh("L")
-            self.loops[lid] = LoopInfo(lid, "comp", it, g, self.loop_stack[-1] if self.loop_stack else None,
-                                       ast.unparse(g.target))
+            fused = None
+            if it[0] == "comp" and it[1] == "gen" and len(it[3]) == 1 and it[3][0][0] in self.loops:
+                # a comprehension over a lazy generator (genexp / map / filter) is one loop: elements are produced and
+                # consumed one at a time
+                fused = it
+                lid, it = fused[3][0][0], fused[3][0][1]
+                self.loops[lid].target_text = ast.unparse(g.target)
+            else:
+                lid = self.fresh("L")
+                self.loops[lid] = LoopInfo(lid, "comp", it, g, self.loop_stack[-1] if self.loop_stack else None,
+                                           ast.unparse(g.target))
             self.loop_stack.append(lid)
             pushed += 1
-            self.assign(g.target, ("elem", lid), inner, n)
+            self.assign(g.target, fused[2] if fused is not None else ("elem", lid), inner, n)
             inner = AND(inner, ("inloop", lid))
-            conds = []
+            conds = list(fused[3][0][2]) if fused is not None else []
+            for c_ in conds:
+                inner = AND(inner, c_)
             for c in g.ifs:
                 ct = self.ev(c, inner)
                 conds.append(ct)
